@@ -135,10 +135,11 @@ theorem readBody_strip (h : PacketHeader) (wh : List Warning) (x : List UInt8) (
     (hx : x.length + (tokBytes tok).length ≤ Tw.Gen.Packet6.READ_PAYLOAD_LIMIT) :
     readBody h wh (x ++ tokBytes tok) src scratch (some tok.isSome) =
       if h.flags &&& Tw.Gen.Packet6.PACKETFLAG_CONTROL ≠ 0 then
-        match readControl h tok x src Tw.Gen.Packet6.HEADER_SIZE with
-        | (ws, .error e) => .error (e, wh ++ ws)
-        | (ws, .ok (c, loc)) =>
-          .ok { pkt := .connected h.ack tok (.control c), warns := wh ++ ws, loc := loc, scratch := scratch }
+        match controlValue x src Tw.Gen.Packet6.HEADER_SIZE with
+        | .error e => .error (e, wh ++ controlWarns h tok x)
+        | .ok (c, loc) =>
+          .ok { pkt := .connected h.ack tok (.control c), warns := wh ++ controlWarns h tok x, loc := loc,
+                scratch := scratch }
       else
         .ok { pkt := .connected h.ack tok (.chunks (rrOf h) h.numChunks x),
               warns := wh ++ (if h.numChunks = 0 ∧ ¬ rrOf h then [.chunksNoChunks] else []),
@@ -147,6 +148,7 @@ theorem readBody_strip (h : PacketHeader) (wh : List Warning) (x : List UInt8) (
   have h1 : ¬ (x ++ tokBytes tok).length > Tw.Gen.Packet6.READ_PAYLOAD_LIMIT := by
     simp only [List.length_append]; omega
   rw [if_neg h1]
+  unfold readBodyWith
   cases tok with
   | none =>
     simp only [tokBytes, List.append_nil, Option.isSome_none, Bool.false_eq_true, false_and, if_false]
@@ -208,7 +210,7 @@ theorem readControl_ctrlBody (ack : Nat) (c : Control) (tok : Option Token) (src
     (hv : ∀ m, c = .close m → m.length ≤ Tw.Gen.Packet6.CTRLMSG_CLOSE_REASON_LENGTH ∧ ∀ b ∈ m, b ≠ 0) :
     readControl ⟨Tw.Gen.Packet6.PACKETFLAG_CONTROL, ack, 0⟩ tok (ctrlBody c tok) src off =
       ([], .ok (c, ctrlLoc c src off)) := by
-  unfold readControl ctrlBody
+  unfold readControl controlWarns controlValue ctrlBody
   cases c with
   | close m =>
     obtain ⟨hl, hz⟩ := hv m rfl
@@ -291,7 +293,10 @@ theorem v6_control_roundtrip (t : Huffman.Table) (ack : Nat) (tok : Option Token
     rw [if_neg h8, readBody_strip _ _ _ _ _ _ (by simp only [Tw.Gen.Packet6.READ_PAYLOAD_LIMIT]; omega)]
     have h1 : (⟨Tw.Gen.Packet6.PACKETFLAG_CONTROL, ack, 0⟩ : PacketHeader).flags &&& Tw.Gen.Packet6.PACKETFLAG_CONTROL ≠ 0 := by
       simp only; decide
-    rw [if_pos h1, readControl_ctrlBody ack c tok .input _ hv]
+    have hrc := readControl_ctrlBody ack c tok .input Tw.Gen.Packet6.HEADER_SIZE hv
+    unfold readControl at hrc
+    simp only [Prod.mk.injEq] at hrc
+    rw [if_pos h1, hrc.1, hrc.2]
     rfl
 
 /-- the Huffman codec round trip (C07: `Tw.Huffman.decompress_compress _ wellFormed_table false`) -/
